@@ -61,7 +61,8 @@ Definition S_loc_dt (labels : list val) (k : dkey) : res sel :=
   match k with
   | DKey k' => S_loc val_eqb labels k'
   | DPeriod u c => Ok (SMany (mask_positions (map (in_period u c) labels) 0))
-  | DPeriods u cs => Ok (SMany (mask_positions (map (fun l => existsb (fun c => in_period u c l) cs) labels) 0))
+  | DPeriods u cs =>   (* in KEY order: the labels of the first period, then those of the second, ... *)
+      Ok (SMany (concat (map (fun c => mask_positions (map (in_period u c) labels) 0) cs)))
   | DSlice a b st =>
       match end_label true labels a, end_label false labels b with
       | Some la, Some lb => S_loc val_eqb labels (LSlice la lb st)
@@ -71,6 +72,11 @@ Definition S_loc_dt (labels : list val) (k : dkey) : res sel :=
 
 Definition Ssd (s : sseries val val) (k : dkey) : res (xres val val) :=
   rs <- S_loc_dt (ss_index s) k;; S_series_sel val_eqb s rs.
+
+(* a Series whose datetime labels sit at one LEVEL of a hierarchical index (HLoc[..., key]): plabels = that level's label per
+   row; a per-level selection keeps the order of the hierarchy: the rows whose level label lies inside one of the periods *)
+Definition Ssd_by (s : sseries val val) (plabels : list val) (u : tunit) (cs : list Z) : res (xres val val) :=
+  S_series_sel val_eqb s (SMany (mask_positions (map (fun l => existsb (fun c => in_period u c l) cs) plabels) 0)).
 
 (* Frame with a datetime axis: the other axis takes an ordinary label key *)
 Definition Sxd (rdt : list dtype -> dtype) (f : mframe val val) (rows_dt : bool) (dk : dkey) (ok : lkey val) : res (xres val val) :=
